@@ -1,6 +1,7 @@
 package main
 
 import (
+	"verif.local/mc/harness/c08"
 	"verif.local/mc/harness/c18"
 	"verif.local/mc/harness/c07"
 	"verif.local/mc/harness/c17"
@@ -8,6 +9,7 @@ import (
 )
 
 func init() {
+	register("C08", "fault_enumeration", c08.Run)
 	register("C18", "model_checking", c18.Run)
 	register("C07", "exploration", c07.Run)
 	register("C17", "exploration", c17.Run)
